@@ -32,6 +32,7 @@ static int ninst;
 
 static void drv_reset(void)
 {
+	alarm(4);   /* a behaviour is a few calls on small data: a longer run is a hang */
 	int i;
 	for (i = 0; i < ninst; i++) {
 		if (mt[i]) mt[i]->_vptr->unref(mt[i]);
@@ -126,6 +127,20 @@ static void drv_step(struct cmd *c)
 		else if (!strcmp(via, "string")) m = mpt_iterator_string(desc, 0);
 		else if (!strcmp(via, "linear")) m = mpt_iterator_linear((uint32_t) drv_uint(c, "len", 0), rat(c, "a", 0), rat(c, "b", 1));
 		else if (!strcmp(via, "boundary")) m = mpt_iterator_boundary((uint32_t) drv_uint(c, "len", 0), rat(c, "a", 0), rat(c, "b", 0), rat(c, "c", 0));
+		else if (!strcmp(via, "iterarg")) {
+			/* constructor parameters handed over as (text) iterator */
+			MPT_INTERFACE(metatype) *am = mpt_iterator_string(desc, 0);
+			MPT_INTERFACE(iterator) *ai = 0;
+			const char *kind = drv_raw(c, "kind");
+			if (am && MPT_metatype_convert(am, MPT_ENUM(TypeIteratorPtr), &ai) >= 0 && ai && kind) {
+				MPT_STRUCT(value) val = MPT_VALUE_INIT(0, 0);
+				MPT_value_set(&val, MPT_ENUM(TypeIteratorPtr), &ai);
+				if (!strcmp(kind, "linear")) m = _mpt_iterator_linear(&val);
+				else if (!strcmp(kind, "range")) m = _mpt_iterator_range(&val);
+				else if (!strcmp(kind, "factor")) m = _mpt_iterator_factor(&val);
+			}
+			if (am) am->_vptr->unref(am);
+		}
 		else if (!strcmp(via, "buffer") || !strcmp(via, "args")) {
 			MPT_STRUCT(array) arr = MPT_ARRAY_INIT;
 			size_t k, off = 0, len = dl ? dl + 1 : 0;
@@ -138,7 +153,7 @@ static void drv_step(struct cmd *c)
 			mpt_array_clone(&arr, 0);
 			free(seg);
 		}
-		else if (!strcmp(via, "profile") || !strcmp(via, "poly")) {
+		else if (!strcmp(via, "profile") || !strcmp(via, "poly") || !strcmp(via, "polyapi")) {
 			MPT_STRUCT(array) arr = MPT_ARRAY_INIT;
 			size_t n = 0, k;
 			double *g;
@@ -155,12 +170,17 @@ static void drv_step(struct cmd *c)
 			}
 			make_array(&arr, 'd', g, n * sizeof(*g));
 			free(g);
-			m = mpt_iterator_profile(&arr, desc);
+			m = !strcmp(via, "polyapi") ? mpt_iterator_poly(desc, &arr) : mpt_iterator_profile(&arr, desc);
 			mpt_array_clone(&arr, 0);
 		}
 		r = add_inst(m);
 		free(desc);
 		answer(c, r >= 0 ? "ok" : (r == -1 ? "refused" : "noiter"));
+		return;
+	}
+	if (!strcmp(a, "nop")) {
+		drv_reset();
+		answer(c, "ok");
 		return;
 	}
 	if (!strcmp(a, "fill")) {
@@ -226,6 +246,21 @@ static void drv_step(struct cmd *c)
 		j_str("how", !v ? "null" : (r < 0 ? "noconv" : "conv"));
 		j_int("type", type);
 		j_int("conv", r);
+		drv_end();
+		return;
+	}
+	if (!strcmp(a, "consume")) {
+		double x;
+		uint64_t sentinel = 0x7ff8dead0000beefULL;
+		int r;
+		memcpy(&x, &sentinel, sizeof(x));
+		r = mpt_iterator_consume(it[i], 'd', &x);
+		drv_begin(c);
+		j_str("ret", r >= 0 ? "value" : "end");
+		if (r >= 0) j_double("d", x);
+		else { long long none = 0; j_ints("d", &none, 0); }
+		drv_dbg();
+		j_int("code", r);
 		drv_end();
 		return;
 	}
